@@ -17,7 +17,7 @@ TRUSTED_BASE = [
 ASSUMPTIONS = ["margin disabled for every pool, liquidity protection inactive, removal lock period 0 in the correspondence histories",
                "map iterations modelled in sorted order (order-independence is C09)"]
 UNPROVED = [
-    "endBlock_solvent_Statement: solvency across clp.EndBlocker (provider distribution LPPD, depth rewards in both modes) is stated but not yet proved; it is covered by the correspondence and the judged predicate only",
+    "clp.EndBlocker is proved solvent under EndBlockOK: LPPD block rate in [0,1] (enforced by ValidateBasic) and, in distribute mode, every rewarded pool has a provider record; the latter is an invariant of reachable states (the last provider can never withdraw 100%: ErrPoolTooShallow) argued in DESIGN.md, not proved; without it the code records a reward on the pool while the coins are burned",
     "margin open/close/interest messages are outside this model slice (custody enters as configured pool fields); C13 covers margin bookkeeping",
     "exact-equality clause (slack changes only by the decommission remainder) is judged on implementation states but not proved",
 ]
